@@ -712,9 +712,43 @@ Theorem c20_convert_sam_bam_sam :
 Proof. exact convert_sam_bam_sam. Qed.
 Print Assumptions c20_convert_sam_bam_sam.
 
+(* The file level, SAM -> BAM: the header text and the lines the SAM writer emits for a whole data
+   set (h, rs), piped through the generic reader into the generic BAM writer (uncompressed
+   stream).  Either the BAM writer rejects the header or a record, or the BAM reader
+   (C05's Bam.File.read_file: header block, then records until the clean end) reads the produced
+   stream to its END as the same header and, record for record and in order, r's BAM form up to
+   the three normalisations above.  (How sam::io::Reader cuts the stream into header and lines is
+   not part of the model: the input is given as header text + list of lines.) *)
+From NV Require Import Sam.Header Sam.HeaderProofs Util.ConvertFile Util.ConvertFileProofs.
+From NV Require Bam.File.
+Theorem c20_convert_sam_to_bam_file :
+  forall (fmt32 fmtd32 : N -> bytes) (parse32 : bytes -> option N) (parse32p : bytes -> option (N * bytes)),
+    (forall b, finite32 b = true -> parse32 (fmt32 b) = Some b) ->
+    (forall b, PR (fmt32 b)) ->
+    (forall b rest, finite32 b = true -> (rest = [] \/ exists r, rest = 44 :: r) ->
+                    parse32p (fmtd32 b ++ rest) = Some (b, rest)) ->
+    (forall b, PR (fmtd32 b)) ->
+    forall h t rs lines,
+      wf_header h -> wf_refs (map sq_name (h_sq h)) ->
+      Forall (fun r => wf_rec r /\ wf_bits r /\ r_qual r <> [9]) rs ->
+      write_header h = Some t ->
+      written_lines fmt32 fmtd32 (map sq_name (h_sq h)) rs lines ->
+      match convert_sam_bam_file parse32 parse32p t lines with
+      | CfOk file =>
+          Bam.File.read_file file
+          = Bam.Record.Ok (h, (map (fun r => Bam.CodecProofs.norm (to_bam_d (lazy_i (norm_i r)))) rs,
+                               Bam.File.EndEof))
+          /\ Forall (fun r => by_value (Bam.CodecProofs.norm (to_bam_d (lazy_i (norm_i r))))
+                              = by_value (Bam.CodecProofs.norm (to_bam_d r))) rs
+      | CfWriteErr => True
+      | _ => False
+      end.
+Proof. exact convert_sam_bam_file_preserves. Qed.
+Print Assumptions c20_convert_sam_to_bam_file.
+
 (* what stays open (kept visible): the same for VCF <-> BCF (C09's VCF text model and C10's BCF
-   record model are not bridged by a to_bcf map yet) and for CRAM (C07's container model), and
-   the file level (header + every record in a loop through the Inner readers/writers). *)
+   record model are not bridged by a to_bcf map yet) and for CRAM (C07's container model), the
+   file level of BAM -> SAM, and the BGZF layer of the file level (C01/C05's Bam.FileBgzf). *)
 Definition c20_conversions_full_statement
     (A B : Type) (read_a : list N -> option (list A)) (write_b : list A -> option (list N))
     (read_b : list N -> option (list B)) (same : A -> B -> Prop) : Prop :=
